@@ -17,7 +17,21 @@ import z3
 W = 64  # bit-vector width used for Python ints (guarded by interval tracking)
 
 
-class PathAbort(BaseException):
+ACTIVE = None  # the active context (SymCtx or ReplayCtx)
+
+
+class EngineSignal(BaseException):
+    """Base of the engine's control-flow exceptions. asyncio.Task stores BaseExceptions raised
+    inside coroutines instead of propagating them, so every signal also registers itself in the
+    active context; the virtual loops and run_path re-raise it from there."""
+
+    def __init__(self, *a):
+        super().__init__(*a)
+        if ACTIVE is not None and getattr(ACTIVE, "fatal", None) is None:
+            ACTIVE.fatal = self
+
+
+class PathAbort(EngineSignal):
     """The current path is abandoned (infeasible assumption, violation found...)."""
 
 
@@ -25,15 +39,21 @@ class ViolationFound(PathAbort):
     pass
 
 
-class Inconclusive(BaseException):
+class Inconclusive(EngineSignal):
     """Solver said unknown / budget exceeded: the run cannot be called 'held'."""
 
 
-class EngineUnsupported(BaseException):
+class EngineUnsupported(EngineSignal):
     """The engine met something it cannot model soundly (never reported as 'held')."""
 
 
-CUR = None  # the active context (SymCtx); None when no symbolic run is active
+def raise_pending():
+    """Re-raise an engine signal that was swallowed somewhere (e.g. by an asyncio.Task)."""
+    if ACTIVE is not None and getattr(ACTIVE, "fatal", None) is not None:
+        raise ACTIVE.fatal
+
+
+CUR = None  # the active symbolic context (SymCtx); None when no symbolic run is active
 
 
 def cur():
@@ -142,6 +162,7 @@ class SymCtx:
         self.notes: dict = {}
         self.seed = seed
         self._fresh = 0
+        self.fatal = None
 
     # -- variables ---------------------------------------------------------
     def _declare(self, name, kind, var):
@@ -225,6 +246,10 @@ class SymCtx:
         for x in extra:
             vs |= expr_vars(x)
         cons = self._slice(vs)
+        sv = set(vs)
+        for c in cons:
+            sv |= expr_vars(c)
+        self._last_slice_vars = sv
         t0 = time.perf_counter()
         s = z3.Solver()
         s.set("timeout", timeout_ms or SOLVER_TIMEOUT_MS)
@@ -344,8 +369,9 @@ class SymCtx:
     def assignment(self, m=None):
         """Concrete values of all declared inputs (from a z3 model or self.model)."""
         out = {}
+        in_slice = getattr(self, "_last_slice_vars", None) if m is not None else None
         for n, (kind, var) in self.inputs.items():
-            if m is not None:
+            if m is not None and (in_slice is None or n in in_slice):
                 v = m.eval(var, model_completion=True)
                 if kind in ("bv",):
                     out[n] = v.as_long()
@@ -499,6 +525,7 @@ class ReplayCtx:
         self.reached = {}
         self.notes = {}
         self.used = set()
+        self.fatal = None
 
     def _get(self, name, default=0):
         self.used.add(name)
@@ -580,9 +607,11 @@ def run_path(fn, params, prefix, model, stats, known_open=(), keep_obs=False, se
     ctx = SymCtx(prefix, model, stats, known_open, seed)
     res = PathResult()
     core.CUR = ctx
+    core.ACTIVE = ctx
     try:
         try:
             fn(ctx, params)
+            raise_pending()
         except ViolationFound:
             res.status = "violation"
         except PathAbort as e:
@@ -596,6 +625,7 @@ def run_path(fn, params, prefix, model, stats, known_open=(), keep_obs=False, se
             res.detail = str(e)
     finally:
         core.CUR = None
+        core.ACTIVE = None
     stats.paths += 1
     res.violations = ctx.violations
     res.known_hits = ctx.known_hits
